@@ -693,7 +693,8 @@ RUN_ROOTS = ( 'enip_machine', 'CIP', 'tnet_machine' )
 # consumers that are unbounded on purpose and are *not given* a limit, so the property (which speaks of parsers given a limit)
 # does not apply; one line of reason each
 EXEMPT_CONSUMERS = {
-    ( 'parser', 'unrecognized' ): 'CPF item of an unrecognised type: by design parses the remainder of the CPF into .input (no limit is given to it)',
+    # ( none: the raw-octets fall-through of CPF for unrecognised item types was exempt here as "by design" until two round-6 agents showed
+    #   what it swallows - defect BB, repaired: it is bounded by repeat='.length' now and decided like every other consumer )
 }
 
 LENGTH_NAMES = ( 'length', 'size', 'count', 'number' )
@@ -840,6 +841,25 @@ def g_limits( ctx ):
             else:
                 res.bad( src, c, '%s creates the parsers of %s with limit=%s' % ( qn, table, norm_text( lim ) if lim is not None else 'None (absent)' ),
                          'a parser that is not tied to the length parsed ahead of it completes successfully past that length whenever its own structure asks for more: it eats the following item / the bytes behind the frame' )
+    # (a') the fall-through of CPF's item dispatch ( an item of a type that is not in ITEM_PARSERS: Sockaddr Info, Sequenced Address ... ) is kept
+    # as raw octets - exactly as many as the item's own length field says: a bounded octets( ..., repeat='.length' ) and no transition of that
+    # state onto itself.  Unbounded, it takes every octet that follows: the next item of the list, the bytes behind the list.
+    fn = src.get( 'CPF.__init__' )
+    raw = [ a for a in ast.walk( fn ) if isinstance( a, ast.Assign ) and isinstance( a.value, ast.Call ) and isinstance( a.value.func, ast.Name ) and a.value.func.id == 'octets'
+            and not any( a is x for x in ast.walk( dispatch_loops( fn, 'ITEM_PARSERS' )[0] )) ]
+    if not raw:
+        res.note( 'CPF.__init__: no raw-octets fall-through for unrecognized item types ( such items fail to parse: nothing to bound )' )
+    for a in raw:
+        kw = { k.arg: try_fold( k.value, default=None ) for k in a.value.keywords }
+        bound = [ v for k_, v in kw.items() if k_ in ( 'repeat', 'limit' ) and isinstance( v, str ) and v.lstrip( '.' ) == 'length' ]
+        names = { t.id for tg in a.targets for t in ast.walk( tg ) if isinstance( t, ast.Name ) }
+        selfloop = [ x for x in ast.walk( fn ) if isinstance( x, ast.Assign ) and isinstance( x.value, ast.Name ) and x.value.id in names
+                     and any( isinstance( t, ast.Subscript ) and isinstance( t.value, ast.Name ) and t.value.id in names for t in x.targets ) ]
+        if bound and not selfloop:
+            res.ok( src, a, 'CPF.__init__: an item of an unrecognized type is kept as exactly its .length raw octets' )
+        else:
+            res.bad( src, selfloop[0] if selfloop else a, 'CPF.__init__: the raw-octets parser of an unrecognized item type is not bounded by the item\'s length' + ( ' ( it loops onto itself )' if selfloop else '' ),
+                     'an item whose type is not in ITEM_PARSERS swallows everything behind it - the following items of the list, the bytes behind the list - although its own length field was parsed just ahead of it' )
     n = 0
     for rel in ( 'server/enip/parser.py', 'server/enip/device.py', 'server/enip/logix.py' ):
         s2 = ctx.src( rel )
